@@ -65,7 +65,7 @@ def floor_db(x, L, P, b, peak_amp):
 def one_sinusoid(rec, seedt, tier, fixed=None):
     rng = gen.rng_for(*seedt) if fixed is None else None
     if fixed is None:
-        Ls = [64, 100, 257, 1000, 4096, 16384]
+        Ls = [64, 100, 257, 1000, 4096, 16384, 1025, 4097, int(2 * rng.integers(512, 4000) + 1)]
         if tier == "thorough":
             Ls += [65536, int(rng.integers(64, 5001)), int(rng.integers(64, 5001))]
         L = int(rng.choice(Ls))
